@@ -868,6 +868,33 @@ theorem goodS_parseId {re : Bytes} (hwf : WF re) (isAlnum : Char → Bool) {base
               = base + open_.length + (l + 1) + (c0 :: cs0).length by omega]
             exact h1
 
+/-- **parse_id** (valid UTF-8, from a boundary, ASCII delimiters, a non-empty closing delimiter
+    that is not an identifier character — as in all five call sites): when an identifier is found,
+    `skip` is positive and `base + skip` is a boundary inside the pattern; it never errs, never
+    panics (the three slices are in range and on boundaries, the `debug_assert!` holds) and the
+    fuel of its scanning loop suffices -/
+theorem C06_parseId_bounds {re : Bytes} (hwf : WF re) (isAlnum : Char → Bool) {base : Nat}
+    {open_ close : List Nat} (allowRel : Bool) (hb : isBoundary re base = true)
+    (hopen : ∀ c ∈ open_, c < 128) (hclose : ∀ c ∈ close, c < 128) (hne : close ≠ [])
+    (hdbg : ∀ c, close.head? = some c → isIdChar isAlnum (mkChar c) = false) :
+    (∀ a b skip, parseId isAlnum re base open_ close allowRel = .ok (some (a, b, skip)) →
+      0 < skip ∧ base + skip ≤ re.size ∧ isBoundary re (base + skip) = true) ∧
+    (∀ s, parseId isAlnum re base open_ close allowRel ≠ .panic s) ∧
+    parseId isAlnum re base open_ close allowRel ≠ .outOfFuel := by
+  have h := goodS_parseId hwf isAlnum allowRel hb hopen hclose hne hdbg
+  refine ⟨fun a b skip e => ?_, fun s e => ?_, fun e => ?_⟩
+  · rw [e] at h
+    have := h a b skip rfl
+    exact ⟨this.1, isBoundary_le this.2, this.2⟩
+  · rw [e] at h; exact h
+  · rw [e] at h; exact h
+
+-- `<n>` : the identifier is bytes 1..2, three bytes are used
+example : parseId (fun c => c.isAlphanum) #[60, 110, 62] 0 [60] [62] false = .ok (some (1, 2, 3)) := by
+  rfl
+-- the hypotheses are satisfiable: the bytes of any string are well-formed
+example : WF (bytesOf "(?<é>a)".toList) := WF_bytesOf _
+
 /-! ## References (`parse_numbered_backref`, `parse_named_backref`) -/
 set_option linter.unusedVariables false
 
@@ -1995,5 +2022,11 @@ example : isErrAt (parseStr (fun c => c.isAlphanum) "a(b".toList false) 3 = true
 example : isErrAt (parseStr (fun c => c.isAlphanum) "(?#\\".toList false) 4 = true := by decide +kernel
 example : isOkDepth (parseStr (fun c => c.isAlphanum) "(é|b)*\\1".toList false) 5 = true := by
   decide +kernel
+
+-- `\\x41` → the literal `A`; `(?i:` → the loop stops at the colon with the flag set
+example : parseHex #[92, 120, 52, 49] {} 2 2 = .ok (4, .literal ['A'] false) := by rfl
+example : flagsLoop 6 #[40, 63, 105, 58] {} 2 2 false = .ok (.colon 3, { casei := true }) := by rfl
+example : WF (bytesOf "a{2,3}".toList) ∧ (bytesOf "a{2,3}".toList)[1]? = some (ch '{') :=
+  ⟨WF_bytesOf _, by decide⟩
 
 end Fancy.Parse
